@@ -260,7 +260,27 @@ func c28BoundsOf(f *ssa.Function) []c28Bound {
 	return out
 }
 
-func c28FileBounds(c *Ctx, p *Prog, set []*ssa.Function) {
+// c28ConstCap: x is an array, a pointer to an array, or a slice of one - its
+// capacity is a compile-time constant.
+func c28ConstCap(x ssa.Value) bool {
+	for d := 0; d < 6; d++ {
+		t := x.Type().Underlying()
+		if pt, ok := t.(*types.Pointer); ok {
+			t = pt.Elem().Underlying()
+		}
+		if _, ok := t.(*types.Array); ok {
+			return true
+		}
+		sl, ok := x.(*ssa.Slice)
+		if !ok {
+			return false
+		}
+		x = sl.X
+	}
+	return false
+}
+
+func c28FileBounds(c *Ctx, p *Prog, set []*ssa.Function) (nConstCap int) {
 	debug := os.Getenv("C28_DEBUG_SLICES") != ""
 	tt := newC28Taint()
 	nSites, nNonConst, nTainted := 0, 0, 0
@@ -336,6 +356,7 @@ func c28FileBounds(c *Ctx, p *Prog, set []*ssa.Function) {
 				})
 			}
 			atoms := map[string]bool{}
+			upperPos, upperNeg := map[string]bool{}, map[string]bool{}
 			for _, ifi := range conds {
 				cmp, ok := ifi.Cond.(*ssa.BinOp)
 				if !ok {
@@ -360,8 +381,56 @@ func c28FileBounds(c *Ctx, p *Prog, set []*ssa.Function) {
 				if q {
 					atoms[litOf(ifi.Cond, true).Atom] = true
 				}
+				// direction (used for operands of constant capacity only): litOf writes
+				// every inequality as (L < R); the bound is limited from above by the
+				// positive literal when it is (a + term of) L, by the negative one when
+				// it is (a + term of) R, and by the positive literal of an equality
+				inSide := func(side ssa.Value) bool {
+					if accept[desc(stripConv(side))] {
+						return true
+					}
+					for _, t := range c28Terms(side, true) {
+						if accept[desc(t)] {
+							return true
+						}
+					}
+					return false
+				}
+				atom := litOf(ifi.Cond, true).Atom
+				lside, rside := cmp.X, cmp.Y
+				if cmp.Op == token.GTR || cmp.Op == token.LEQ {
+					lside, rside = cmp.Y, cmp.X
+				}
+				if cmp.Op == token.EQL || cmp.Op == token.NEQ || strings.Contains(atom, " == ") {
+					if inSide(cmp.X) || inSide(cmp.Y) {
+						upperPos[atom] = true
+					}
+				} else {
+					if inSide(lside) {
+						upperPos[atom] = true
+					}
+					if inSide(rside) {
+						upperNeg[atom] = true
+					}
+				}
 			}
 			at := bs.at
+			if c28ConstCap(bs.x) {
+				nConstCap++
+				// x is (a slice of) a fixed-size array: its capacity cannot be tested
+				// "instead of the bound", and a lower-bound test (size < 8) says nothing
+				// about the upper end - some literal on every path must limit the bound
+				// from above
+				w := mustPassPred(ff, func(i ssa.Instruction) bool { return i == at }, func(l Lit) bool {
+					return l.Pos && upperPos[l.Atom] || !l.Pos && upperNeg[l.Atom]
+				})
+				detail := "operand of constant capacity: every path passes a comparison that limits the bound from above"
+				if w != nil {
+					detail = "bound " + trunc(bd, 90) + " selects a position inside the fixed-size array " + trunc(xd, 40) + " and no comparison on the way limits it from above (a lower-bound test does not): a corrupted / foreign file makes this panic (slice bounds out of range), which ends the process from the parseSegments goroutines and through handlerExitOnPanic; path: " + w.String(p)
+				}
+				c.Check("C28.P9."+topName(ff), key, w == nil, p.Pos(posOf(bs.at, ff)), detail)
+				continue
+			}
 			w := mustPassPred(ff, func(i ssa.Instruction) bool { return i == at }, func(l Lit) bool { return atoms[l.Atom] })
 			detail := fmt.Sprintf("guarded by a comparison on the bound / its terms / the operand's length (%d candidate tests)", len(atoms))
 			pos := p.Pos(posOf(bs.at, ff))
@@ -383,6 +452,7 @@ func c28FileBounds(c *Ctx, p *Prog, set []*ssa.Function) {
 	c.Floor("C28.P9.bound_sites", nSites, 60)
 	c.Floor("C28.P9.nonconstant_bounds", nNonConst, 15)
 	c28TaintSelfCheck(c, p, tt)
+	return nConstCap
 }
 
 // c28TaintSelfCheck: the two box sizes segmentFMP4ReadHeader assembles from the
